@@ -36,3 +36,184 @@ def get(d, name):
 def getdef(d, name, default):
     """d.get(name, default) for a dict d"""
     return z3.If(V.dict_has(d, ks(name)), V.get(d, name), default)
+
+
+# ---------------------------------------------------------------------------------------------------------
+# small-scope corpora for the bounded stand-ins
+SCALARS = [None, True, False, 0, 1, -1, 7, 0.0, 1.5, -2.5, "", "x", "code", "id", "é中"]
+
+
+def json_values(depth=1):
+    out = list(SCALARS)
+    if depth > 0:
+        sub = [None, 0, "a", [], {}]
+        out += [[], [1], ["code"], [None, "x"], {}, {"a": 1}, {"code": 1}, {"a": [1, {"b": None}]}]
+        if depth > 1:
+            out += [[v] for v in sub] + [{"k": v} for v in sub]
+    return out
+
+
+# ---------------------------------------------------------------------------------------------------------
+# trusted externals (DESIGN section 3).  Each handler's docstring is the assumed contract and ends up in
+# the evidence `trusted_base` when the handler is exercised.
+import jsonrpclib.config as _cfgmod
+from pyvc.symexec import ALLOC0, Meta
+from pyvc import ops as _ops
+
+DEFAULT_REF = z3.Int("DEFAULT_CONFIG_REF")
+CONFIG = "jsonrpclib.config.Config"
+
+T.declare_ghost("uuid_ctr", z3.IntSort())
+T.declare_ghost("call_log", Val)
+T.declare_ghost("imports", Val)
+T.declare_ghost("constructs", Val)
+T.declare_ghost("wire", Val)
+T.declare_ghost("last_dumped", Val)
+
+uuid_str = z3.Function("uuid_str", z3.IntSort(), z3.StringSort())
+jloads_of = z3.Function("jloads_of", z3.StringSort(), Val)
+json_text = z3.Function("json_text", z3.StringSort(), z3.BoolSort())     # the text is valid JSON
+
+
+def default_config(ex=None, d=None):
+    v = V.VObj(DEFAULT_REF)
+    return v
+
+
+TABLE.default_objects[id(_cfgmod.DEFAULT)] = default_config
+
+
+def _setup_default(st):
+    """facts about the shared default configuration object"""
+    st.assume(z3.And(DEFAULT_REF >= 0, DEFAULT_REF < ALLOC0))
+    st.assume(C.cls_of(DEFAULT_REF) == z3.IntVal(C.cid(_cfgmod.Config)))
+    st.settype(V.VObj(DEFAULT_REF), _cfgmod.Config)
+    # domain assumption: the shared default configuration holds valid values when the call starts
+    rd = lambda f: st.read(DEFAULT_REF, f)
+    st.assume(z3.And(is_version(rd("version")), V.is_bool(rd("use_jsonclass")), V.is_str(rd("content_type")),
+                     V.is_str(rd("user_agent")), V.is_str(rd("serialize_method")), V.is_str(rd("ignore_attribute")),
+                     V.is_dict(rd("classes")), V.is_dict(rd("serialize_handlers"))))
+
+
+_orig_default = TABLE.default_object
+
+
+def _default_object(ex, d):
+    if d is _cfgmod.DEFAULT:
+        return V.VObj(DEFAULT_REF)
+    return Meta(d)
+
+
+TABLE.default_object = _default_object
+
+
+@TABLE.register("uuid.uuid4")
+def _uuid4(ex, st, args, kwargs, text):
+    """uuid.uuid4(): str() of the result is non-empty and distinct from every earlier one (ghost uuid_ctr)"""
+    import uuid
+    st = st.copy()
+    n = TABLE.ghost(st, "uuid_ctr")
+    u = st.alloc(uuid.UUID)
+    st.assume(V.str_of(u) == uuid_str(n))
+    st.assume(z3.Length(uuid_str(n)) > 0)
+    st.ghost["uuid_ctr"] = n + 1
+    return [(st, ("val", u))]
+
+
+def _noop(ex, st, args, kwargs, text):
+    """logging: evaluates its arguments, has no other effect, does not raise"""
+    return [(st, ("val", V.VNone))]
+
+
+for _lvl in ("debug", "info", "warning", "error", "exception", "critical", "log"):
+    TABLE.register("logging.Logger." + _lvl, _noop)
+
+
+def _jdumps(ex, st, args, kwargs, text):
+    """json.dumps(v): total on JSON-representable values (returns jdumps_of(v), ASCII), TypeError otherwise;
+    records the serialised value in ghost last_dumped"""
+    v = ex.lift(args[0])
+    alts = [(V.jdumps_ok(v), ("val", V.VStr(V.jdumps_of(v)))), (z3.Not(V.jdumps_ok(v)), ("raise", TypeError))]
+    res = ex.apply_op(st, alts, "jdumps")
+    out = []
+    for s, oc in res:
+        if oc[0] == "val":
+            s = s.copy()
+            s.ghost["last_dumped"] = v
+            s.assume(z3.Length(V.jdumps_of(v)) > 0)
+        out.append((s, oc))
+    return out
+
+
+TABLE.register("jsonrpclib.jsonlib.JsonHandler.get_methods.<locals>.dumps_py3", _jdumps)
+TABLE.register("json.dumps", _jdumps)
+
+
+@TABLE.register("json.loads")
+def _jloads(ex, st, args, kwargs, text):
+    """json.loads(s): for a str that is valid JSON returns jloads_of(s), built only from
+    None/bool/int/float/str/list/dict-with-str-keys; ValueError for any other str; TypeError for a non-str"""
+    v = ex.lift(args[0])
+    s_ = Val.s(v)
+    r = jloads_of(s_)
+    alts = [(z3.And(V.is_str(v), json_text(s_)), ("val", r)),
+            (z3.And(V.is_str(v), z3.Not(json_text(s_))), ("raise", ValueError)),
+            (z3.Not(z3.Or(V.is_str(v), V.is_bytes(v))), ("raise", TypeError)),
+            (V.is_bytes(v), ("unsupported", "json.loads(bytes)"))]
+    res = ex.apply_op(st, alts, "jloads")
+    for s2, oc in res:
+        if oc[0] == "val":
+            s2.pc.append(z3.And(jsonv(r), json_tags(r)))
+    return res
+
+
+# static field knowledge -----------------------------------------------------------------------------------
+for _cls in ("jsonrpclib.jsonrpc.Fault",):
+    FIELDS.declare(_cls, "config", type=CONFIG)
+FIELDS.declare("jsonrpclib.SimpleJSONRPCServer.SimpleJSONRPCDispatcher", "json_config", type=CONFIG)
+FIELDS.declare("jsonrpclib.jsonrpc.TransportMixIn", "_config", type=CONFIG)
+FIELDS.declare("jsonrpclib.jsonrpc.TransportMixIn", "readonly_headers", const=True)
+FIELDS.declare("jsonrpclib.jsonrpc.TransportMixIn", "_extra_headers", maybe_missing=True)
+FIELDS.declare("jsonrpclib.jsonrpc.ServerProxy", "_config", type=CONFIG)
+FIELDS.declare("jsonrpclib.jsonrpc.MultiCall", "_config", type=CONFIG)
+FIELDS.declare("jsonrpclib.jsonrpc.MultiCallMethod", "_config", type=CONFIG)
+FIELDS.declare("jsonrpclib.jsonrpc.MultiCallNotify", "_config", type=CONFIG)
+
+
+def is_version(v):
+    """what Config.version / a version argument may be (C14 quantifier): 1.0, 2.0, 1, 2, '1.0', '2.0'"""
+    return z3.Or(v == V.VFloat(z3.RealVal(1)), v == V.VFloat(z3.RealVal(2)), v == V.I(1), v == V.I(2),
+                 v == V.S("1.0"), v == V.S("2.0"))
+
+
+def version_num(v):
+    """float(v) for a valid version"""
+    return z3.If(V.is_str(v), V.float_of_str(Val.s(v)), V.num(v))
+
+
+def valid_config(c, cfg, heap="old"):
+    rd = c.old if heap == "old" else c.new
+    return z3.And(is_version(rd(cfg, "version")), V.is_bool(rd(cfg, "use_jsonclass")),
+                  V.is_str(rd(cfg, "content_type")), V.is_str(rd(cfg, "user_agent")),
+                  V.is_str(rd(cfg, "serialize_method")), V.is_str(rd(cfg, "ignore_attribute")),
+                  V.is_dict(rd(cfg, "classes")), V.is_dict(rd(cfg, "serialize_handlers")))
+
+
+def keyset(*names):
+    a = V.EMPTY_HAS
+    for n in names:
+        a = z3.Store(a, ks(n), True)
+    return a
+
+
+def keyset_if(pairs):
+    """pairs: list of (name, condition)"""
+    a = V.EMPTY_HAS
+    for n, cond in pairs:
+        a = z3.Store(a, ks(n), cond)
+    return a
+
+
+TABLE.entry_setup = _setup_default
+
+TABLE.global_objects = [(DEFAULT_REF, _cfgmod.DEFAULT)]
